@@ -1,6 +1,6 @@
 (* Inst/Codec.v — the reflective codec checks evaluated on the generated programs (re-checked on
    every run), and the class-level theorems they yield. *)
-From VB Require Import Base IR Sem Tables BaseFacts StreamFacts EvalFacts Roundtrip ClassRT FreshFacts.
+From VB Require Import Base IR Sem Tables BaseFacts StreamFacts EvalFacts Roundtrip ClassRT CallFacts FreshFacts.
 From VB Require Import Classes Consts Common CodecDefs.
 Local Open Scope Z_scope.
 
@@ -38,6 +38,46 @@ Proof.
               s s' bytes Henc Hw Hd Hsig Hg (fresh cs c) rest (fresh_wf cs c Hfw) (defined_b_ok _ _ Hdef))
     as (r' & i' & H1 & H2 & H3 & H4 & H5 & H6).
   exists r', i'. exact (conj H1 (conj H2 (conj H3 (conj H4 (conj H5 H6))))).
+Qed.
+
+(* ---- framing facts that follow from the same checks (C03) ---- *)
+Lemma rt_ok_class c : In c object_classes -> ~ In c rt_exceptions -> class_rt_ok cs scan_p (Wp c) (Rp c) = true.
+Proof.
+  intros Hc Hex. pose proof (forallb_minus rt_ok _ _ rt_all_b c Hc Hex) as Hok. unfold rt_ok in Hok.
+  apply andb_prop in Hok. destruct Hok as [Hok _]. apply andb_prop in Hok. destruct Hok as [Hrt _]. exact Hrt.
+Qed.
+
+(* encoding never reads outside the caller's containers, whatever stale values the derived members hold *)
+Theorem enc_in_bounds : forall c, In c object_classes -> ~ In c rt_exceptions ->
+  forall s, api_state c s -> enc cs default_cap c s <> Err EOOBRead.
+Proof.
+  intros c Hc Hex s (Hw & Hd & Hsig & Hg). unfold enc.
+  exact (encoder_in_bounds cs (callf cs c) scan_p default_cap (callf_no_oob cs c) (Wp c) (Rp c) (rt_ok_class c Hc Hex) s Hw Hd Hg).
+Qed.
+
+(* every derived length/count member holds exactly the size of the payload emitted for its container *)
+Theorem lengths_exact : forall c, In c object_classes -> ~ In c rt_exceptions ->
+  forall s s' bytes, api_state c s -> enc cs default_cap c s = Ok (s', bytes) ->
+  M_sound cs (pre_M cs (pre_of c)) s'.
+Proof.
+  intros c Hc Hex s s' bytes (Hw & Hd & Hsig & Hg) Henc.
+  pose proof (rt_ok_class c Hc Hex) as Hok. unfold class_rt_ok in Hok.
+  unfold pre_of. destruct (split_pre (Wp c)) as [A We] eqn:Esp. cbn [fst].
+  apply andb_prop in Hok. destruct Hok as [Hok Hpair]. apply andb_prop in Hok. destruct Hok as [Hpre Hnsig].
+  destruct (pre_ok_entries cs A Hpre) as [Hent Hnd].
+  unfold enc in Henc. fold (Wp c) in Henc. rewrite (run_w_split cs (callf cs c) default_cap (Wp c) s A We Esp) in Henc.
+  destruct (run_pre cs (callf cs c) A s) as [s1|] eqn:Epre; [|discriminate]. cbn [bind] in Henc.
+  assert (Hs1 : s' = s1) by (eapply run_w_pure_state; eauto). subst s1.
+  unfold pre_of, emit_of in Hd, Hg. rewrite Esp in Hd, Hg. cbn [fst snd] in Hd, Hg.
+  apply (pre_M_sound cs (callf cs c) A s s' Epre Hent Hnd Hw). intros fe g t cc Hin Hder. split; [|eapply Hg; eauto].
+  assert (Hcc : In (cnt_field cc) (deriv_conts cs A)).
+  { unfold deriv_conts. apply in_flat_map. exists fe. split; [exact Hin|]. rewrite Hder. left. reflexivity. }
+  assert (Hdef : s (cnt_field cc) <> VUndef) by (apply Hd; apply in_or_app; right; exact Hcc).
+  rewrite Forall_forall in Hent. destruct (Hent fe Hin) as [_ Hdd]. destruct (Hdd g t cc Hder) as [Hcont _].
+  pose proof Hcont as Hcont'. unfold is_vec, is_arr, kind_of in Hcont'.
+  destruct (find_field cs (cnt_field cc)) as [x|] eqn:Hx; [|discriminate]. cbn [option_map] in Hcont'.
+  pose proof (Hw _ x Hx) as Hsh. unfold shape_ok in Hsh.
+  destruct (f_kind x); try discriminate; destruct (s (cnt_field cc)) as [|b|]; try contradiction; try congruence; exists b; reflexivity.
 Qed.
 
 (* non-vacuity: AppText with a 3-byte text is an api_state and encodes *)
